@@ -125,16 +125,19 @@ def check(case, ignore_regions=False) -> Outcome:
                 cond_activation.append(str(e))
 
         tr.observe("activate_domain_and_interventions", on_act)
+        args = dict(
+            target_outcomes={V(y) for y in ys},
+            target_interventions={V(x) for x in xs},
+            surrogate_outcomes={Variable(d["pop"]): {V(w) for w in d["W"]} for d in doms},
+            surrogate_interventions={Variable(d["pop"]): {V(z) for z in d["Z"]} for d in doms},
+        )
         try:
-            est = tr_mod.identify_target_outcomes(
-                graph,
-                target_outcomes={V(y) for y in ys},
-                target_interventions={V(x) for x in xs},
-                surrogate_outcomes={Variable(d["pop"]): {V(w) for w in d["W"]} for d in doms},
-                surrogate_interventions={Variable(d["pop"]): {V(z) for z in d["Z"]} for d in doms},
-            )
+            est = tr_mod.identify_target_outcomes(graph, **args)
+            again = tr_mod.identify_target_outcomes(graph, **args)
         except Exception as e:
             return fail("identify_target_outcomes-raised", exc=repr(e)[:300])
+        if (est is None) != (again is None) or (est is not None and est != again):
+            return fail("answer-changes-when-the-call-is-repeated-with-the-same-objects", first=str(est)[:400], second=str(again)[:400])
     for k in tr.calls:
         if k.startswith("trso_line") or k == "activate_domain_and_interventions":
             labels.add(k)
